@@ -4,7 +4,45 @@
    "version_locations", "version_path_separator", "recursive_version_locations", changelog 0.9.6 on __pycache__),
    by *path algebra over an enumeration of the whole tree* — every real file of the tree is enumerated exactly
    once and kept when the rules say it is a revision file of one of the configured locations — not by walking
-   the locations the way the code does. *)
+   the locations the way the code does.
+
+   WHAT DECIDES WHICH FILES BECOME REVISIONS, and how each item is treated (E = modelled exactly in Model/Loader.v
+   and compared exactly with the real ScriptDirectory on materialised trees; A = assumption / outside):
+   E  from_config: version_locations unset/empty -> <script_location>/versions; version_path_separator = space /
+      newline / os / ":" / ";" / none (legacy regex ", *| +") / anything else (ValueError); strip; blank items dropped
+   E  %(here)s in alembic.ini: the harness writes it, ConfigParser expands it to the absolute root ("/R" in the model)
+   E  abspath normalisation of an item ("", ".", "..", "//", trailing "/"); missing locations are skipped
+      (os.path.exists); a location that is a symlink / passes through a symlink; a location that is a file
+   A  a relative item containing ":" (package resource), an absolute item outside the tree, leaving the tree by ".."
+   E  Script._list_py_dir: os.walk top-down, non-recursive = first directory only, recursive = every real
+      sub-directory (links to directories are listed under dirs and not followed), any directory whose path ends
+      in "__pycache__" contributes nothing itself but its sub-directories are visited; hidden and "_"-directories
+      are ordinary; sourceless: os.listdir(root/__pycache__) minus the names whose first dot-component is that of
+      a *.py/*.pyc/*.pyo file of root (this is how "x.cpython-312.pyc" is tied to "x.py": no has_pep3147 /
+      cache_from_source call is involved in listing)
+   E  listing order: the tree value lists the entries of a directory in os.listdir order (observed by the harness);
+      the model sorts where the code sorts — sorted(files); dirs.sort(), which `continue` jumps over below a
+      ...__pycache__ directory; os.listdir(__pycache__) unsorted; locations in configured order.  It only matters
+      for which Script stays in the map when an id is defined twice: C19_order_invariant / C19_map_order_refuted
+   E  os.path.realpath de-duplication (`dupes`), the "loaded twice" warning, basename/dirname of the REAL path
+      (a link is judged by the name of its target)
+   E  _only_source_rev_file / _sourceless_rev_file as predicates on the name: suffix .py (.pyc/.pyo when sourceless),
+      not ".#...", not "__init__..."; case sensitive ("a.PY" is not a revision file); hidden ".a.py" is one;
+      other suffixes ("a.py.bak", "a.txt", "a") are not; "a.pyc.py" is a source, "a.py.pyc" a compiled file
+   E  precedence: .py over .pyc over .pyo in the same directory (os.path.exists of the sibling)
+   E  util.load_python_file: which loader the suffix selects, extension lost by os.path.splitext (".py", "..pyc"),
+      .pyo through SourcelessFileLoader, content that cannot be imported -> the exception propagates (one error kind)
+   A  pyc_file_from_path / cache_from_source: only reached when the ".py" path handed to load_python_file does not
+      exist, which cannot happen for the realpath of a listed file (broken links are outside wf_tree); it serves
+      env.py loading, not revision loading
+   E  `module.revision`; a module without it gets its id from _legacy_rev.match(filename) (hex digits + ".py", so
+      never for compiled files) or CommandError
+   E  the Script record: Script(module, revision, path) hands module.down_revision / branch_labels / depends_on to
+      Revision.__init__ unchanged; the model identifies the module (its tag = docstring) and the revision id, the
+      harness reads both back from the real Script; interpretation of those attributes is C16/C17
+   E  RevisionMap._revision_map as far as ids go: "present more than once" warning per repeated id (there is no
+      error for a duplicated revision id), the last Script listed with an id stays in the map
+   A  module.down_revision missing (AttributeError), revision ids that fail Revision.verify_rev_id, names with "\n" *)
 From AV Require Export Model.Loader.
 From Coq Require Export Permutation.
 
@@ -84,7 +122,10 @@ Definition wanted (T:node) (sl rec:bool) (locs:list rloc) (f:lentry) : bool :=
 Definition expected_files (T:node) (sl rec:bool) (locs:list rloc) : list lentry :=
   filter (wanted T sl rec locs) (all_entries T).
 
-Definition file_id (f:lentry) : option N := match snd f with File c => c | _ => None end.
+(* the Script a revision file yields: its module with the module's `revision`, or for a module without that
+   attribute the legacy id read off the file name (none: the load must fail) *)
+Definition file_id (f:lentry) : option N :=
+  match snd f with File (Some code) => module_revision (snd (fst f)) code | _ => None end.
 Fixpoint ids_of (l:list lentry) : option (list N) :=
   match l with
   | [] => Some []
@@ -138,8 +179,11 @@ Definition count (x:N) (l:list N) : nat := count_occ N.eq_dec l x.
 Definition C19_holds (i:input) (o:res obs) : Prop :=
   match o, expected i with
   | Ok ob, Ok ids =>
-      Permutation (o_ids ob) ids                                   (* one revision per revision file, nothing else *)
-      /\ forall x, count x (o_dups ob) = pred (count x ids)        (* an id defined by k files is reported k-1 times *)
+      Permutation (o_ids ob) ids                                   (* one Script per revision file, nothing else *)
+      /\ (forall x, count x (o_dups ob) = pred (count x (map rid_of ids)))   (* an id defined by k files is reported k-1 times *)
+      /\ NoDup (map rid_of (o_map ob))                             (* the map holds one Script per revision id, *)
+      /\ incl (o_map ob) ids                                       (* each of them the Script of an expected file, *)
+      /\ incl (map rid_of ids) (map rid_of (o_map ob))             (* and no revision id is missing *)
   | Err e, Err e' => e = e'                                        (* fails exactly when it has to, with that kind *)
   | _, _ => False
   end.
@@ -152,16 +196,20 @@ Definition same_counts (a b:list N) : bool := forallb (fun x => Nat.eqb (countb 
 Definition check_C19 (i:input) (o:res obs) : bool :=
   match o, expected i with
   | Ok ob, Ok ids => same_counts (o_ids ob) ids
-                     && forallb (fun x => Nat.eqb (countb x (o_dups ob)) (pred (countb x ids))) (o_dups ob ++ ids)
+                     && forallb (fun x => Nat.eqb (countb x (o_dups ob)) (pred (countb x (map rid_of ids))))
+                                (o_dups ob ++ map rid_of ids)
+                     && nodupb (map rid_of (o_map ob)) && subsetN (o_map ob) ids
+                     && subsetN (map rid_of ids) (map rid_of (o_map ob))
   | Err e, Err e' => lerr_eqb e e'
   | _, _ => false
   end.
 
 (* exact correspondence on the observable: multiset of loaded ids, number of "loaded twice" warnings, multiset of
-   ids in "present more than once" warnings, or the error kind *)
+   ids in "present more than once" warnings, set of Scripts in the final revision map, or the error kind *)
 Definition corr_C19 (i:input) (o:res obs) : bool :=
   match load_revisions i, o with
   | Ok a, Ok b => same_counts (o_ids a) (o_ids b) && N.eqb (o_twice a) (o_twice b) && same_counts (o_dups a) (o_dups b)
+                  && same_counts (o_map a) (o_map b)
   | Err a, Err b => lerr_eqb a b
   | _, _ => false
   end.
@@ -209,3 +257,14 @@ Definition clean_config (i:input) : bool :=
   end.
 Definition inclass_C19 (i:input) : bool :=
   wf_tree (i_tree i) && clean_config i.
+
+(* ------------------------------------------------------------------ independence of the listing order *)
+(* two results that differ at most in the order things were met: same Scripts, same warnings; the same map whenever
+   no revision id is defined twice *)
+Definition obs_equiv (a b : res obs) : Prop :=
+  match a, b with
+  | Ok x, Ok y => Permutation (o_ids x) (o_ids y) /\ o_twice x = o_twice y /\ Permutation (o_dups x) (o_dups y)
+                  /\ (NoDup (map rid_of (o_ids x)) -> Permutation (o_map x) (o_map y))
+  | Err e, Err e' => e = e'
+  | _, _ => False
+  end.
